@@ -1,4 +1,4 @@
-import ScenicModel.Lemmas.SamplerPerm
+import ScenicModel.Lemmas.SamplerDraws
 import ScenicModel.Gen.SamplerCfg
 
 /-!
@@ -18,7 +18,13 @@ Reading guide (all statements are for every program, every set of roots, every p
 * `generate_closed_form`, `generate_rejection`, `generate_conditional_independent_of_n` — the rejection loop;
 * `soft_mixture` — soft requirements enforced independently with their probabilities;
 * `resample_indep` — a clone is an independent draw from the same conditional distribution;
-* `rebinding` — a requirement keeps the bindings of the moment its statement ran.
+* `rebinding` — a requirement keeps the bindings of the moment its statement ran;
+* `sampled_iff_reachable`, `prior_is_declarative`, `loop_is_closed_form`,
+  **`scene_generation_eq_declarative_semantics`** — the operational model of `Scenario._generateInner` gives every
+  event exactly the probability of the declarative semantics `specGenerate` (`Model/SamplerSpec.lean`): independent
+  draws of the reachable nodes, conditioned on all enforced requirements, geometric number of iterations, mixture over
+  the independently enforced soft requirements;
+* `weighted_spec`, `uniform_star_spec` — the weighted choice and the uniform choice over a star-unpacked list.
 -/
 namespace Scenic.C01
 open Scenic.Sampler Scenic.Gen Scenic.Sampler.Dist
@@ -188,6 +194,68 @@ theorem rebinding (before after : List Stmt) (p : Rat) (cond : NExpr) :
   · rw [h2]; simp [exec]
   · rw [h1]; simp [exec]
 
+/-! ## more of what one draw is -/
+
+/-- `Options({o_0: w_0, …})` / `Discrete`: the selector takes the value `k` with probability exactly `w_k / Σ w`
+    (weights non-negative; zero weights are never drawn) -/
+theorem weighted_spec (ws : List Rat) (hnn : ∀ w ∈ ws, 0 ≤ w) (env : Env) (k : Nat) (hk : k < ws.length) :
+    mass (draw samplerCfg (.windex ws) env) (onSome (isIndex k)) = ws.getD k 0 / sumW ws :=
+  windex_draw samplerCfg ws hnn env k hk
+
+/-- `Uniform(*seq, x, …)` (`UniformDistribution`): when the star-unpacked list of options has `n ≥ 1` entries in all,
+    the selector is uniform over exactly `0 … n-1`, and the value is the entry at the selected position -/
+theorem uniform_star_spec (len sel : Nat) (opts : List (Bool × Nat)) (env : Env) (n : Nat) (hn : 1 ≤ n)
+    (hlen : env.get len = .num ((n : Nat) : Int)) :
+    draw samplerCfg (.dynSelector len) env
+        = (List.range n).map (fun k => (some (Val.num ((k : Nat) : Int)), 1 / (n : Rat)))
+      ∧ ∀ k, ∀ env' : Env, k < (argVals env' opts).length → env'.get sel = .num ((k : Nat) : Int) →
+          draw samplerCfg (.ustar sel opts) env' = Dist.pure (some ((argVals env' opts).getD k .err)) :=
+  ⟨dynSelector_draw gen_cfg_wf len env n hn hlen, fun k env' hk h => ustar_draw samplerCfg sel opts env' k hk h⟩
+
+/-! ## the operational model is the declarative semantics -/
+
+/-- **exactly the values reachable from `Scenario.dependencies` are sampled**: a value nothing refers to is never
+    drawn (so an unused empty range never rejects a scene), and everything referred to is -/
+theorem sampled_iff_reachable (P : Prog) (hP : P.WF) (roots : List Nat) (hr : ∀ j ∈ roots, j < P.nodes.length)
+    (x : Nat) : x ∈ postorder P roots ↔ Reach P roots x :=
+  mem_postorder_iff_reach P hP roots hr x
+
+/-- every event on the outcome of `Samplable.sampleAll` (the sampled values, or "rejected") has the probability given
+    by one independent draw per reachable node, in increasing node index -/
+theorem prior_is_declarative (P : Prog) (hP : P.WF) (hN : P.Normalized) (roots : List Nat)
+    (hr : ∀ j ∈ roots, j < P.nodes.length) (E : Option Env → Bool) (hE : Resp fun env => E (some env)) :
+    mass (sampleAll samplerCfg P roots) E = mass (specPrior samplerCfg P roots) E :=
+  prior_event_indep samplerCfg P hP hN roots hr E hE
+
+/-- the `while` loop gives every event on (scene, iterations) / failure the probability of the geometric closed form -/
+theorem loop_is_closed_form {σ : Type} (att : Dist (Option σ)) (n : Nat) (Q : Option (σ × Nat) → Bool) :
+    mass (loop att n 0) Q = mass (geomLoop att n 0) Q :=
+  loop_eq_geomLoop att n 0 Q
+
+/-- **Scenes are drawn from exactly the program's conditional distribution.**  For every acyclic program with proper
+    weights, every choice of roots, requirements with probabilities, default requirements and observed scene (all of
+    them functions of the sampled values), every `maxIterations = n` and every event `Q` on
+    (which soft requirements were enforced, `some (scene, iterations)` / `none`):
+    the model of `Scenario._generateInner` gives `Q` exactly the probability that the declarative semantics
+    `specGenerate` gives it — independent draws, one per reachable value; conditioned on all enforced requirements;
+    iteration count geometric with the per-attempt rejection probability; soft requirements enforced independently
+    with their probabilities. -/
+theorem scene_generation_eq_declarative_semantics {σ : Type} (P : Prog) (hP : P.WF) (hN : P.Normalized)
+    (roots : List Nat) (hr : ∀ j ∈ roots, j < P.nodes.length)
+    (reqs : List (Rat × (Env → Bool))) (hreq : ∀ r ∈ reqs, Resp r.2)
+    (defaults : List (Env → Bool)) (hdef : ∀ r ∈ defaults, Resp r)
+    (scene : Env → σ) (hs : ∀ e e', EnvEq e e' → scene e = scene e') (n : Nat)
+    (Q : List Bool → Option (σ × Nat) → Bool) :
+    mass (generate samplerCfg P roots reqs defaults scene n) (fun o => Q o.1 o.2)
+      = mass (specGenerate samplerCfg P roots reqs defaults scene n) (fun o => Q o.1 o.2) :=
+  generate_eq_specGenerate gen_cfg_wf P hP hN roots hr reqs hreq defaults hdef scene hs n Q
+
+/-- the hypotheses of the main theorem can be decided by evaluation (the driver does, for every program of the
+    correspondence run), and conditions written as `RExpr` always are events on the sampled values -/
+theorem hypotheses_decidable (P : Prog) (h1 : P.wfB = true) (h2 : P.normalizedB = true) (e : RExpr) :
+    P.WF ∧ P.Normalized ∧ Resp e.holds :=
+  ⟨Prog.wfB_sound h1, Prog.normalizedB_sound h2, e.holds_resp⟩
+
 /-! ## the hypotheses are satisfiable: a concrete program -/
 
 /-- `x = DiscreteRange(1, 2); y = x + x` with `y` observed: `x` is referenced twice -/
@@ -224,5 +292,32 @@ example :
   decide
 
 example : samplerCfg.actProb (1/4) = 1/4 := (activation_spec (1/4) 0).1
+
+/-- the main theorem applies to the concrete program: `x = DiscreteRange(1, 2); y = x + x; require[1/4] y > 2`,
+    observing `y`; its hypotheses are checked by evaluation -/
+example :
+    let req : RExpr := .op "gt" [.ref 3, .const (.num 2)]
+    exProg.wfB = true ∧ exProg.normalizedB = true ∧ (∀ j ∈ [3], j < exProg.nodes.length)
+      ∧ (∀ r ∈ [((1/4 : Rat), req.holds)], Resp r.2)
+      ∧ (∀ e e' : Env, EnvEq e e' → e.get 3 = e'.get 3) := by
+  refine ⟨by decide, by decide, by decide, ?_, fun e e' h => h 3⟩
+  intro r hr
+  simp only [List.mem_singleton] at hr
+  subst hr
+  exact RExpr.holds_resp _
+
+/-- ... and the declarative semantics of that program is not trivial: with the soft requirement enforced the scene
+    `y = 4` is returned at the first iteration with weight 1/4 · 1/2, at the second with 1/4 · 1/2 · 1/2 -/
+example :
+    let req : RExpr := .op "gt" [.ref 3, .const (.num 2)]
+    let d := specGenerate samplerCfg exProg [3] [((1/4 : Rat), req.holds)] [] (fun e => (e.get 3).canon) 2
+    mass d (fun o => o.1 == [true] && o.2 == some ("4/1", 1)) = 1/8
+      ∧ mass d (fun o => o.1 == [true] && o.2 == some ("4/1", 2)) = 1/16
+      ∧ mass d (fun o => o.1 == [false] && o.2 == some ("2/1", 1)) = 3/8 := by
+  decide +kernel
+
+/-- a weighted choice with weights 1, 0, 3: index 2 has probability 3/4 -/
+example : ([1, 0, 3] : List Rat).getD 2 0 / sumW [1, 0, 3] = 3/4 := by
+  norm_num [sumW, List.getD]
 
 end Scenic.C01
